@@ -16,6 +16,7 @@ PROPS["C06"] = dict(
     units=[
         dict(name="firsttouch", run="^TestC06FirstTouch$", shards=1, timeout=(300, 900)),
         dict(name="inmem", run="^TestC06InmemRapid$", checks=(3000, 30000), shards=(2, 16), timeout=(300, 1500)),
+        dict(name="squeeze", run="^TestC06Squeeze$", shards=1, timeout=(300, 900)),
         dict(name="rediswire", run="^TestC06RedisWire$", checks=(2, 40), shards=(1, 4), timeout=(300, 1500), shrinktime="30s"),
         dict(name="redis", run="^TestC06RedisRapid$", checks=(1500, 8000), shards=(2, 16), timeout=(300, 1500)),
     ],
